@@ -75,9 +75,12 @@ def run(ctx):
                                            select=lambda c, i, o: o[0] in MUT, tags=("backup",))
     if tier != "quick":
         # sampled double faults
+        by_parent = {}
+        for v in variants:
+            by_parent.setdefault(v.meta["parent"], []).append(v)
         for v in rnd.sample(variants, min(len(variants), 2000)):
-            w = rnd.choice(variants)
-            if w.meta["parent"] == v.meta["parent"] and w.faults != v.faults:
+            w = rnd.choice(by_parent[v.meta["parent"]])   # a second fault of the same history
+            if w.faults != v.faults:
                 variants.append(t2.Case(v.id + "+", v.cfg, v.inits, v.ops, faults=v.faults + w.faults, meta=v.meta))
     r = worldrun.run_stream("C08", "backup_faults", variants, model_ok, level=2, oracle=oracle, do_shrink=False,
                             triggers=faultgen.history_triggers(r0), nontrivial=lambda c, a: True,
